@@ -61,7 +61,7 @@ def run(pid, tier, args):
         for f in vlib.parse_lines(res.lines, "API"):
             spec[(f[0], int(f[1]), int(f[2]))] = (f[3], "|".join(f[4:]))
         ncases = 0
-        for variant in ("core", "generated", "plain", "upper", "generated-upper"):
+        for variant in ("core", "generated", "plain", "upper", "generated-upper", "multi-upper"):
             outp = os.path.join(wd, "api-%s.txt" % variant)
             vlib.vh(vhgen, ["api-run", cp, variant], outfile=outp, timeout=3000)
             calls = {}
@@ -149,6 +149,6 @@ def run(pid, tier, args):
         v.validated(ncases)
         k0 = next(iter(spec))
         v.sample({"case": P.describe(byid[k0[0]], k0), "specification": {"after_ParseFromLexer": spec[k0][0], "every_entry_point": spec[k0][1][:300]}})
-        v.notes["family"] = "%d seeded F_core grammars x exhaustive short + sampled inputs x lookaheads; lexer variants: stateful core, generated core (compiled `participle gen lexer` output), each with and without Upper(Ident), and the core definition behind a wrapper that offers only Lex(filename, reader); entry points: %s; %s" % (len(gs), ", ".join(PARSE_EPS + ["ParseFromLexer+AllowTrailing"]), ", ".join(LEX_EPS))
+        v.notes["family"] = "%d seeded F_core grammars x exhaustive short + sampled inputs x lookaheads; lexer variants: stateful core, generated core (compiled `participle gen lexer` output), each with and without Upper(Ident), the core definition with three catch-all mappers + Upper(Ident) + mappers for Int and Punct, and the core definition behind a wrapper that offers only Lex(filename, reader); entry points: %s; %s" % (len(gs), ", ".join(PARSE_EPS + ["ParseFromLexer+AllowTrailing"]), ", ".join(LEX_EPS))
         v.assumptions += ["the text/scanner default lexer's entry points are exercised by C04/C06/C18, not here", "custom Parseable root types are not part of the family"]
     return v.finish()
